@@ -375,6 +375,12 @@ def _field_type_terms(cls, spec):
 _build_cache = {}
 
 
+class _ETuple(enum.Enum):
+    """an enum whose member values are tuples: its value type is a sequence, converted values may be unhashable"""
+    A = (1, 2)
+    B = (3, 4)
+
+
 def build(term, rng=None) -> Built:
     """Build the live typing object and the Coq term of a type term."""
     rng = rng or random
@@ -388,7 +394,7 @@ def build(term, rng=None) -> Built:
         return Built(term, py, f'(TScalar {coq})')
     if k == 'std':
         import datetime, decimal, fractions, pathlib, os
-        py = {'decimal': decimal.Decimal, 'fraction': fractions.Fraction, 'datetime': datetime.datetime, 'date': datetime.date,
+        py = {'enum_tuple': _ETuple, 'decimal': decimal.Decimal, 'fraction': fractions.Fraction, 'datetime': datetime.datetime, 'date': datetime.date,
               'time': datetime.time, 'path': pathlib.PurePosixPath, 'pathlike': os.PathLike, 'pattern': re.Pattern,
               'pattern_str': t.Pattern[str], 'pattern_bytes': re.Pattern[bytes]}[term[1]]
         return Built(term, py, '%NOCOQ%')     # outside the Coq model: monitored on pane only
